@@ -18,6 +18,7 @@ CONSTANTS Devs, Tier, Tag
 FileFaults == {"missing", "isdir", "dangling", "empty", "truncated", "garbage", "bom", "jsonnull", "jsonarray",
                "jsonstring", "jsonnumber", "typenum", "propsnum", "badyaml"}
 ElemFaults == {"unknowntype", "missingdef", "missingfile", "refhash", "refhashslash", "refdefsempty", "refother",
+               "refdefsbare", "refdefinitionsbare", "refuppercase",
                "emptyenum", "nonprimenum", "intenumstr", "multiaddl", "defaultemptykey"}
 Positions  == {"property", "nested", "item", "definition", "allof", "anyof", "allofbranch", "anyofbranch", "reffile"}
 \* "#" is the document root (success is legitimate); a default object with the key "" is odd but not one of
@@ -50,6 +51,7 @@ SilentDef == (IF "SilentBadAllOfBranch" \in Devs THEN {<<"unknowntype", "allofbr
 PanicsDef == (IF "RefHashPanics" \in Devs THEN {<<"refhash", "property">>, <<"refhash", "nested">>} ELSE {})
              \cup (IF "DefaultEmptyKeyPanics" \in Devs THEN {<<"defaultemptykey", p>> : p \in Positions} ELSE {})
 HangsDef  == {}
+RefCollapseDef == "SameNameRefDefsCollapse" \in Devs
 
 EmitOutcome == phase \in {"exit", "hung"} =>
   PrintT("OUTCOME " \o ToJson([tag |-> Tag, sc |-> sc, exit |-> IF phase = "hung" THEN 99 ELSE exit,
